@@ -790,7 +790,10 @@ SparseMatrixCSR<double> DirectSolverGiveCustomLU::buildSolverMatrix()
         solver_matrix.values_data()[i] = 0.0;
     }
 
-    if (omp_get_max_threads() == 1) {
+    /* Without a circle section the innermost nodes belong to the radial lines and are coupled across the origin to the
+     * opposite line, which the 3-colouring of the radial lines does not separate: sweep sequentially in that case. */
+    const bool radial_lines_coupled_across_origin = grid_.numberSmootherCircles() == 0 && !DirBC_Interior_;
+    if (omp_get_max_threads() == 1 || radial_lines_coupled_across_origin) {
         /* Single-threaded execution */
         for (int i_r = 0; i_r < grid_.numberSmootherCircles(); i_r++) {
             buildSolverMatrixCircleSection(i_r, solver_matrix);
